@@ -9,7 +9,10 @@ mod el;
 mod gen;
 mod lay;
 mod rec;
+mod s_api;
+mod s_bilinear;
 mod s_linear;
+mod s_spline;
 mod scen;
 
 use el::Rng;
@@ -57,6 +60,15 @@ fn main() {
     let mut rng = Rng::new(seed ^ 0x5eed_0000);
     match scenario.as_str() {
         "linear" => s_linear::linear(&mut tr, &mut rng, thorough),
+        "entries" => s_api::entries(&mut tr, &mut rng, thorough),
+        "layouts" => s_api::layouts(&mut tr, &mut rng, thorough),
+        "buffers" => s_api::buffers(&mut tr, &mut rng, thorough),
+        "custom" => s_api::custom(&mut tr, &mut rng, thorough),
+        "casts" => s_api::casts(&mut tr, &mut rng, thorough),
+        "bilinear" => s_bilinear::bilinear(&mut tr, &mut rng, thorough),
+        "spline" => s_spline::spline(&mut tr, &mut rng, thorough),
+        "periodic" => s_spline::periodic(&mut tr, &mut rng, thorough),
+        "poly" => s_spline::poly(&mut tr, &mut rng, thorough),
         s => {
             eprintln!("unknown scenario {s}");
             std::process::exit(2);
